@@ -15,7 +15,7 @@ import re
 
 TOK = re.compile(r"\s*(<--|\.\.|==|!=|<=|>=|&&|\|\||[A-Za-z_][A-Za-z_0-9]*|\d+|[(){}\[\],;|!?<>=+\-*%.$])")
 
-LAT_TYPES = {"max_i32", "dual_i32", "set_i32", "bset2_i32", "opt_i32", "cp_i32", "prod_max_dual", "lex_pair", "bool_or"}
+LAT_TYPES = {"max_i32", "dual_i32", "set_i32", "bset2_i32", "opt_i32", "cp_i32", "prod_max_dual", "lex_pair", "lex_dual_pair", "bool_or"}
 COL_TYPES = {"int", "opt"}
 FUN1 = {"some", "dual", "undual", "set1", "setlen", "bset1", "bsettop", "cpc", "cptop", "issome", "not"}
 FUN2 = {"min", "max", "setu", "sethas", "bsethas", "cpis", "optge"}
